@@ -119,6 +119,22 @@ impl Ssh {
     }
 }
 
+/// Verification hook (compiled only with `--cfg bgpfu_verif`): `Ssh::connect` is crate-private.
+#[cfg(bgpfu_verif)]
+impl Ssh {
+    #[allow(missing_docs, clippy::missing_errors_doc)]
+    pub async fn verif_connect<A>(
+        addr: A,
+        username: String,
+        password: Password,
+    ) -> Result<Self, Error>
+    where
+        A: ToSocketAddrs + Debug + Send,
+    {
+        Self::connect(addr, username, password).await
+    }
+}
+
 impl Transport for Ssh {
     type SendHandle = Sender;
     type RecvHandle = Receiver;
